@@ -17,7 +17,7 @@ func runC18(c *Ctx) {
 		maxLines, depth = 3, 3
 	}
 	c.Exhaustive = true
-	c.Rule = fmt.Sprintf("all policy files of <= %d lines over a 10-line universe (p and g rules, padded fields, a comment, a blank, a quoted field, a rule of the wrong arity which makes every load that keeps it fail) x all sequences of depth <= %d over {LoadFilteredPolicy, LoadIncrementalFilteredPolicy with 9 filters (per type, empty = wildcard, nil, longer than the rule, blank-padded values) and a value of the wrong type, LoadPolicy, SavePolicy, AddPolicy} on the real FilteredAdapter with real temp files: result, IsFiltered, listed rules, links, decisions and the file bytes after every call are compared with the Lean model; on the implementation: a filtered load lists exactly the full load's rules whose leading fields equal the filter's non-empty values, decisions equal those of a fresh enforcer given the subset, SavePolicy while filtered is refused and leaves the file bytes unchanged, SavePolicy never succeeds while the enforcer may hold a partial view (a filtered load, completed or failed, since the last successful full load); non-trivial = a sequence with a filtered load that kept some and dropped some rules; distinct = (file, sequence)", maxLines, depth)
+	c.Rule = fmt.Sprintf("all policy files of <= %d lines over a 10-line universe (p and g rules, padded fields, a comment, a blank, a quoted field, a rule of the wrong arity which makes every load that keeps it fail) x all sequences of depth <= %d over {LoadFilteredPolicy, LoadIncrementalFilteredPolicy with 9 filters (per type, empty = wildcard, nil, longer than the rule, blank-padded values) and a value of the wrong type, LoadPolicy, SavePolicy, AddPolicy} on the real FilteredAdapter with real temp files: result, IsFiltered, listed rules, links, decisions and the file bytes after every call are compared with the Lean model; the same loads through SyncedEnforcer and through a DistributedEnforcer with a dispatcher must give what the plain enforcer gives (all sequences of <= 3 of 6 loads); on the implementation: a filtered load lists exactly the full load's rules whose leading fields equal the filter's non-empty values, decisions equal those of a fresh enforcer given the subset, SavePolicy while filtered is refused and leaves the file bytes unchanged, SavePolicy never succeeds while the enforcer may hold a partial view (a filtered load, completed or failed, since the last successful full load); non-trivial = a sequence with a filtered load that kept some and dropped some rules; distinct = (file, sequence)", maxLines, depth)
 	lineUniverse := []string{"p, alice, data1, read", "p, bob, data2, write", "p,alice ,  data2,write", "g, alice, admin", "g, bob, admin",
 		"p, admin, data1, read", "# comment", "", "p, \"alice\", data3, read", "p, carol, data1"}
 	filters := []struct {
@@ -34,6 +34,7 @@ func runC18(c *Ctx) {
 		{&fileadapter.Filter{P: []string{"alice", "", "", ""}}, false},
 		{&fileadapter.Filter{P: []string{"nobody"}, G: []string{"nobody"}}, false},
 	}
+	c18Wrappers(c)
 	var alpha []EOp
 	for _, f := range filters {
 		alpha = append(alpha, EOp{Kind: "loadf", Filter: f.f, NilFilter: f.nil}, EOp{Kind: "loadif", Filter: f.f, NilFilter: f.nil})
@@ -155,6 +156,97 @@ func runC18(c *Ctx) {
 			}
 		}
 		enumerate(c, cfg)
+	}
+}
+
+// nopDispatcher records nothing and changes nothing: a DistributedEnforcer with a dispatcher routes its
+// management calls (incl. Enforcer.ClearPolicy) to it instead of changing its own model
+type nopDispatcher struct{ calls []string }
+
+func (d *nopDispatcher) AddPolicies(sec string, ptype string, rules [][]string) error { return nil }
+func (d *nopDispatcher) RemovePolicies(sec string, ptype string, rules [][]string) error {
+	return nil
+}
+func (d *nopDispatcher) RemoveFilteredPolicy(sec string, ptype string, fieldIndex int, fieldValues ...string) error {
+	return nil
+}
+func (d *nopDispatcher) ClearPolicy() error { d.calls = append(d.calls, "ClearPolicy"); return nil }
+func (d *nopDispatcher) UpdatePolicy(sec string, ptype string, oldRule, newRule []string) error {
+	return nil
+}
+func (d *nopDispatcher) UpdatePolicies(sec string, ptype string, oldrules, newRules [][]string) error {
+	return nil
+}
+func (d *nopDispatcher) UpdateFilteredPolicies(sec string, ptype string, oldRules [][]string, newRules [][]string) error {
+	return nil
+}
+
+// c18Wrappers: the synchronised and the distributed enforcer (with a dispatcher) must load exactly what the
+// plain enforcer loads, call by call (implementation only)
+func c18Wrappers(c *Ctx) {
+	text := "p, alice, data1, read\np, bob, data2, write\np, admin, data1, read\ng, alice, admin\ng, bob, admin\n"
+	fA := &fileadapter.Filter{P: []string{"alice"}, G: []string{"alice"}}
+	fB := &fileadapter.Filter{P: []string{"bob"}, G: []string{"bob"}}
+	fC := &fileadapter.Filter{P: []string{"", "data1"}}
+	type step struct {
+		name string
+		run  func(load func() error, loadf, loadif func(interface{}) error) error
+	}
+	steps := []step{
+		{"load", func(l func() error, f, i func(interface{}) error) error { return l() }},
+		{"loadf A", func(l func() error, f, i func(interface{}) error) error { return f(fA) }},
+		{"loadif B", func(l func() error, f, i func(interface{}) error) error { return i(fB) }},
+		{"loadf B", func(l func() error, f, i func(interface{}) error) error { return f(fB) }},
+		{"loadif C", func(l func() error, f, i func(interface{}) error) error { return i(fC) }},
+		{"loadf nil", func(l func() error, f, i func(interface{}) error) error { return f(nil) }},
+	}
+	ms := rbacSpec(false, false)
+	dir, err := os.MkdirTemp("", "c18w")
+	if err != nil {
+		panic(err)
+	}
+	defer os.RemoveAll(dir)
+	for _, seq := range seqsUpTo(len(steps), 3) {
+		if len(seq) == 0 {
+			continue
+		}
+		mk := func(name string) string {
+			p := dir + "/" + name + ".csv"
+			_ = os.WriteFile(p, []byte(text), 0o644)
+			return p
+		}
+		plain, _ := casbin.NewEnforcer(ms.Build(), fileadapter.NewFilteredAdapter(mk("plain")))
+		synced, _ := casbin.NewSyncedEnforcer(ms.Build(), fileadapter.NewFilteredAdapter(mk("synced")))
+		dist, _ := casbin.NewDistributedEnforcer(ms.Build(), fileadapter.NewFilteredAdapter(mk("dist")))
+		disp := &nopDispatcher{}
+		dist.SetDispatcher(disp)
+		state := func(e *casbin.Enforcer) string {
+			p, _ := e.GetPolicy()
+			g, _ := e.GetGroupingPolicy()
+			ok, _ := e.Enforce("alice", "data1", "read")
+			return fmt.Sprintf("p=%v g=%v filtered=%v alice-data1-read=%v", p, g, e.IsFiltered(), ok)
+		}
+		var names []string
+		for _, i := range seq {
+			st := steps[i]
+			names = append(names, st.name)
+			e0 := st.run(plain.LoadPolicy, plain.LoadFilteredPolicy, plain.LoadIncrementalFilteredPolicy)
+			e1 := st.run(synced.LoadPolicy, synced.LoadFilteredPolicy, synced.LoadIncrementalFilteredPolicy)
+			e2 := st.run(dist.LoadPolicy, dist.LoadFilteredPolicy, dist.LoadIncrementalFilteredPolicy)
+			ref := state(plain)
+			if got := state(synced.Enforcer); got != ref || (e0 == nil) != (e1 == nil) {
+				c.Direct("SyncedEnforcer loads something else than the plain enforcer for the same (filtered / incremental / full) loads", fmt.Sprintf("%v\nplain:  %s err=%v\nsynced: %s err=%v", names, ref, e0, got, e1))
+			}
+			if got := state(dist.SyncedEnforcer.Enforcer); got != ref || (e0 == nil) != (e2 == nil) {
+				c.Direct("a DistributedEnforcer with a dispatcher loads something else than the plain enforcer for the same loads", fmt.Sprintf("%v\nplain:       %s err=%v\ndistributed: %s err=%v", names, ref, e0, got, e2))
+			}
+			if len(disp.calls) > 0 {
+				c.Direct("a filtered load broadcast a ClearPolicy through the dispatcher", fmt.Sprintf("%v dispatcher calls=%v", names, disp.calls))
+				disp.calls = nil
+			}
+		}
+		c.Evals++
+		c.Count("wrapper_sequences", 1)
 	}
 }
 
